@@ -297,8 +297,10 @@ def check_net(op, op_param, argws, dw, timeout_ms=60000):
     s.set('timeout', timeout_ms)
     s.add(z3.Not(goal))
     bits = {}
+    keep = []              # keep the limb terms alive: ids of freed terms are recycled
     for i, w in enumerate(argws):
         for n, l in enumerate(limbs_of(avars[i], w)):
+            keep.append(l)
             bits[l.get_id()] = min(64, w - 64 * n)
     for t in mul_apps:
         # the only facts about the exact product the carry chain relies on:
